@@ -619,6 +619,31 @@ def x4(e: Engine, rep: Report):
                 isinstance(x.func.value, ast.Name) and \
                 x.func.value.id not in rparams:
             names.add(x.args[0].value)
+    # ... or kept in a dict of defaults that is filled from the parsed
+    # parameters (`params = {'message': '', 'command': None}` ...
+    # `params[name] = m.group(2)` ... `params['message']`)
+    for x in walk_own(rctx.func.node):
+        if isinstance(x, ast.Assign) and len(x.targets) == 1 and \
+                isinstance(x.targets[0], ast.Name) and \
+                isinstance(x.value, ast.Dict) and x.value.keys and all(
+                    isinstance(k, ast.Constant) and isinstance(k.value, str)
+                    for k in x.value.keys):
+            dn = x.targets[0].id
+            filled = any(
+                isinstance(y, ast.Assign) and any(
+                    isinstance(t, ast.Subscript) and
+                    isinstance(t.value, ast.Name) and t.value.id == dn
+                    for t in y.targets) and 'group' in ast.unparse(y.value)
+                for y in walk_own(rctx.func.node))
+            if filled:
+                for y in walk_own(rctx.func.node):
+                    if isinstance(y, ast.Subscript) and \
+                            isinstance(y.ctx, ast.Load) and \
+                            isinstance(y.value, ast.Name) and \
+                            y.value.id == dn and \
+                            isinstance(y.slice, ast.Constant) and \
+                            isinstance(y.slice.value, str):
+                        names.add(y.slice.value)
     rep.evaluations += 1
     rep.check(bool(names) and names <= keys, 'X4', rctx.func.qname,
               'reply parameters read by the relay are written by the edge',
